@@ -7,6 +7,7 @@ import Mmmbbb.Model.FilterSyntax
 import Mmmbbb.Model.Backoff
 import Mmmbbb.Model.Faults
 import Mmmbbb.Model.Push
+import Mmmbbb.Model.Notify
 namespace Mmmbbb.Pure
 open Mmmbbb.Codec Mmmbbb.Filter
 
@@ -130,8 +131,54 @@ def handleWindow (fs : Fields) : String :=
   let traj := bs.foldl (fun (acc : List Int × Int) b => let w := Push.windowStep acc.2 b; (acc.1 ++ [w], w)) ([Push.windowInit], Push.windowInit)
   "R " ++ ",".intercalate (traj.1.map toString)
 
+/-! notify: `notify nsubs=<n> waiters=<sub>:<max>,… writers=<sub>:<k>+…/<sub>+…;… avail=<sub>:<n>,… sched=W<i>,X<j>,…`
+answers, per schedule step, `w=<pcs>;x=<pcs>;r=<registered channels per subscription>;g=<messages got>` joined by `|` -/
+
+def natList (s : String) (sep : String) : Option (List Nat) := (splitNE s sep).mapM String.toNat?
+
+def pairList (s : String) (sep : String) : Option (List (Nat × Nat)) :=
+  (splitNE s sep).mapM fun e => match e.splitOn ":" with
+    | [a, b] => match a.toNat?, b.toNat? with
+      | some x, some y => some (x, y)
+      | _, _ => none
+    | _ => none
+
+def parseProc (s : String) : Option Notify.Proc :=
+  match s.toList with
+  | 'W' :: r => (String.ofList r).toNat?.map Notify.Proc.waiter
+  | 'X' :: r => (String.ofList r).toNat?.map Notify.Proc.writer
+  | _ => none
+
+def handleNotify (fs : Fields) : String :=
+  let nsubs := ((fget fs "nsubs").bind String.toNat?).getD 0
+  let ws := pairList ((fget fs "waiters").getD "") ","
+  let xs : Option (List (List (Nat × Nat) × List Nat)) := (splitNE ((fget fs "writers").getD "") ";").mapM fun e =>
+    match e.splitOn "/" with
+    | [a, b] => match pairList a "+", natList b "+" with
+      | some x, some y => some (x, y)
+      | _, _ => none
+    | _ => none
+  let av := pairList ((fget fs "avail").getD "") ","
+  let sched := (splitNE ((fget fs "sched").getD "") ",").mapM parseProc
+  match ws, xs, av, sched with
+  | some ws, some xs, some av, some sched =>
+    let σ0 := Notify.init (fun i => (ws.getD i (0, 0)).1) (fun i => (ws.getD i (0, 0)).2)
+      (fun j => xs.getD j ([], [])) (fun s => Notify.addsFor av s)
+    let show1 (σ : Notify.Sys) : String :=
+      "w=" ++ ",".intercalate ((List.range ws.length).map fun i => toString (σ.waiter i).pc) ++
+      ";x=" ++ ",".intercalate ((List.range xs.length).map fun j => toString (σ.writer j).pc) ++
+      ";r=" ++ ",".intercalate ((List.range nsubs).map fun s =>
+        if σ.ents.contains s then toString (Notify.regCount σ s) else "-") ++
+      ";g=" ++ ",".intercalate ((List.range ws.length).map fun i => toString (if (σ.waiter i).pc == 5 then (σ.waiter i).got else 0))
+    let rec go (σ : Notify.Sys) (ps : List Notify.Proc) (acc : List String) : List String :=
+      match ps with
+      | [] => acc.reverse
+      | p :: r => let σ' := Notify.step Notify.Cfg.ofSource σ p; go σ' r (show1 σ' :: acc)
+    "R " ++ "|".intercalate (go σ0 sched [])
+  | _, _, _, _ => "ERROR bad notify line"
+
 def isPureOp (op : String) : Bool :=
-  op == "filter" || op == "backoff" || op == "faults" || op == "push" || op == "window"
+  op == "filter" || op == "backoff" || op == "faults" || op == "push" || op == "window" || op == "notify"
 
 def handle (op : String) (fs : Fields) : String :=
   if op == "filter" then handleFilter fs
@@ -139,6 +186,7 @@ def handle (op : String) (fs : Fields) : String :=
   else if op == "faults" then handleFaults fs
   else if op == "push" then handlePush fs
   else if op == "window" then handleWindow fs
+  else if op == "notify" then handleNotify fs
   else "ERROR unknown pure op"
 
 end Mmmbbb.Pure
